@@ -29,6 +29,7 @@ def main(tier):
     r, s = cx.repo, cx.schema
     chk.run("R-ATTRTABLE", V.attrtable, r, floor=80)
     chk.run("R-ATTRKEY", V.attrkey, r, floor=3)
+    chk.run("R-ZEROFALSY", V.zerofalsy, r, floor=20, control=lambda: V.control_zerofalsy(r))
     chk.run("R-VERIFYEXIT", V.verifyexit, r, floor=2)
     chk.run("R-ATTRVALUES", V.attrvalues, r, floor=4)
     chk.run("R-BYTEORDERREQ", V.byteorderreq, r, floor=29)
